@@ -168,6 +168,16 @@ func catalogue() []response {
 	r.add("pkg", srv.Data(srv.TokParams, pw, vals([]byte{1, 2, 3, 4, 5, 6, 7, 8, 9}, srv.F64(3.25))))
 	r.add(done(0, 0))
 
+	// one format, several PARAMS packages (the format is inherited from the
+	// previous data package), also across a message in between
+	r = mk("paramfmt-params-twice")
+	r.add("pkg", srv.ParamFmt(false, pc...))
+	r.add("pkg", srv.Data(srv.TokParams, pc, vals(srv.I32(1), []byte("first"))))
+	r.add("pkg", srv.Data(srv.TokParams, pc, vals(srv.I32(2), []byte("second"))))
+	r.add("eed", srv.EED{MsgNr: 3621, State: 1, Class: 10, SQLState: []byte("01000"), Status: 0, TranState: 1, Msg: "between", Server: "ASE1", Line: 1}.Bytes())
+	r.add("pkg", srv.Data(srv.TokParams, pc, vals(srv.I32(3), []byte("third"))))
+	r.add(done(0, 0))
+
 	r = mk("error-eed")
 	r.add("eed", srv.EED{MsgNr: 208, State: 1, Class: 16, SQLState: []byte("42S02"), Status: 0, TranState: 1, Msg: "tab not found.\n", Server: "ASE1", Proc: "", Line: 1}.Bytes())
 	r.add(done(srv.DoneError, 0))
